@@ -116,7 +116,7 @@ def additive_trie(ctx: Ctx, rule: str) -> None:
                "" if not removers else f"trie nodes can be removed: {first_line(removers[0][1])}")
     dels = [n for n in ast.walk(ctx.repo.module(NODE)) if isinstance(n, ast.Delete) and "variant_nodes" in ast.unparse(n)]
     muts = [(f, n, how) for f, n, how in attribute_stores(ctx.repo, "variant_nodes", ("cartgraph/", "plugins/", "intertest_setup.py"))
-            if how.startswith("mutator") or "delete" in how]
+            if (how.startswith("mutator") and not any(how.endswith(a) for a in ("append", "extend", "insert", "setdefault", "update", "add"))) or "delete" in how]
     ctx.record(rule + "d", "OWNER", NODE, "variant_nodes is never shrunk", not dels and not muts, {}, "" if not dels and not muts else "the variant index of the trie can lose entries")
     found = list(attribute_stores(ctx.repo, "variant_nodes", ("cartgraph/", "plugins/", "intertest_setup.py")))
     owner_rule(ctx, rule + "o", "write to PrefixTree.variant_nodes", found, {f"{PT}.__init__": "empty", f"{PT}.insert": "registration"}, 3)
@@ -140,7 +140,8 @@ def additive_trie(ctx: Ctx, rule: str) -> None:
                 has = ("atom", f"{cur}.check_child({var})")
                 created = [s for i, s in v.stmts(lambda s: isinstance(s, ast.Assign) and isinstance(s.value, ast.Call) and call_name(s.value) == "PrefixTreeNode")]
                 sets = [c for i, c in v.calls(lambda c: call_name(c) == "set_child")]
-                regs = [s for i, s in v.stmts(lambda s: isinstance(s, ast.AugAssign) and ast.unparse(s.target) == f"self.variant_nodes[{var}]")]
+                regs = [s.value for i, s in v.stmts(lambda s: isinstance(s, ast.Expr) and isinstance(s.value, ast.Call) and call_name(s.value) == "append"
+                                                    and ast.unparse(s.value.func.value) == f"self.variant_nodes[{var}]")]
                 steps_cur = [s for i, s in v.stmts(lambda s: isinstance(s, ast.Assign) and ast.unparse(s.targets[0]) == cur)]
                 conds = norm.conj([v.cond_formula(i) for i, s in enumerate(v.steps) if s.kind == "cond"])
                 if v.path.exit not in ("fall", "continue"):
@@ -148,7 +149,7 @@ def additive_trie(ctx: Ctx, rule: str) -> None:
                 if norm.implies(conds, norm.neg(has)):
                     if not (len(created) == 1 and ast.unparse(created[0].value) == f"PrefixTreeNode({var})" and len(sets) == 1
                             and [ast.unparse(a) for a in sets[0].args] == [var, created[0].targets[0].id] and ast.unparse(sets[0].func.value) == cur
-                            and len(regs) == 1 and ast.unparse(regs[0].value) == f"[{created[0].targets[0].id}]"):
+                            and len(regs) == 1 and [ast.unparse(a) for a in regs[0].args] == [created[0].targets[0].id]):
                         ok = False
                         detail["bad_create_path"] = v.path.describe()
                 elif norm.implies(conds, has):
@@ -280,7 +281,11 @@ def graph_lookups(ctx: Ctx, rule: str) -> None:
                {"get_nodes": a if a != want else "reference", "get_objects": b if b != want else "reference"}, "" if ok else "get_nodes and get_objects no longer select 'parameter present and regex found' alike")
     a = canon(f"{G}.get_nodes_by_restr", [("filtered_nodes", "ITEMS"), ("get_nodes", "GET")])
     b = canon(f"{G}.get_objects_by_restr", [("filtered_objects", "ITEMS"), ("get_objects", "GET")])
-    ok2 = a == b and "'(\\\\.|^)(' + or_restriction.replace(',', '|') + ')(\\\\.|$)'" in a and "'^(?!.*(\\\\.|^)(' + or_restriction.replace(',', '|') + ')(\\\\.|$))'" in a \
+    from ..canon import canon_text
+
+    want_only = canon_text("regex = '(\\\\.|^)(' + or_restriction.replace(',', '|') + ')(\\\\.|$)'")
+    want_no = canon_text("regex = '^(?!.*(\\\\.|^)(' + or_restriction.replace(',', '|') + ')(\\\\.|$))'")
+    ok2 = str(a) == str(b) and want_only in a and want_no in a \
         and "ITEMS = self.GET(param_val=regex, subset=ITEMS)" in a and a.rstrip().endswith("return TestGraph._unique_filter(ITEMS) if unique else ITEMS")
     ctx.record(rule + "r", "SIBLING", f"{G}.get_nodes_by_restr / get_objects_by_restr", "both: per line `only a,b` keeps names containing a or b as whole variants, `no a,b` drops them; filters are applied successively", ok2,
                {"equal": a == b}, "" if ok2 else "the restriction filters for nodes and objects differ or no longer match whole variants")
